@@ -576,6 +576,9 @@ func failHow(t *rapid.T, how int, data string) {
 }
 
 // runThreshold runs Check on "fails iff value at or beyond T" and returns the value of the final replay
+// shrinkBudget: "given enough time" - a mismatch is only reported after a second run with a six times larger budget
+var shrinkBudget = 10 * time.Second
+
 func runThreshold(k intKind, neg bool, thr uint64, seed uint64, how int) (got string, want string, verdict string) {
 	var lastI int64
 	var lastU uint64
@@ -595,7 +598,7 @@ func runThreshold(k intKind, neg bool, thr uint64, seed uint64, how int) (got st
 			fail()
 		}
 	}
-	old := setFlags(300, seed, 10*time.Second, true)
+	old := setFlags(300, seed, shrinkBudget, true)
 	defer rapid.VerifSetFlags(old)
 	tb := &recTB{name: "T"}
 	runTB(func() { rapid.Check(tb, prop) })
@@ -643,6 +646,12 @@ func cmdC12Oracle(args []string) {
 		sd := r.next() | 1
 		how := c % 3
 		got, want, verdict := runThreshold(k, fx.neg, fx.thr, sd, how)
+		if got != want && (verdict == "failed" || verdict == "panic") {
+			shrinkBudget = 60 * time.Second
+			got, want, verdict = runThreshold(k, fx.neg, fx.thr, sd, how)
+			shrinkBudget = 10 * time.Second
+			stats["retried_with_longer_budget"]++
+		}
 		stats["fixed_top_thresholds"]++
 		if verdict != "failed" && verdict != "panic" {
 			stats["not_found_in_300_cases"]++
@@ -698,6 +707,12 @@ func cmdC12Oracle(args []string) {
 		sd := r.next() | 1
 		how := r.intn(3)
 		got, want, verdict := runThreshold(k, neg, thr, sd, how)
+		if got != want && (verdict == "failed" || verdict == "panic") {
+			shrinkBudget = 60 * time.Second
+			got, want, verdict = runThreshold(k, neg, thr, sd, how)
+			shrinkBudget = 10 * time.Second
+			stats["retried_with_longer_budget"]++
+		}
 		if verdict == "panic" {
 			verdict = "failed"
 		}
